@@ -106,7 +106,7 @@ POSITIVE_EXAMPLE = {
         "    def __init__(self, text):\n        self.bond_descriptors = []\n        self._raw_text = text\n\n"
         "    def generate(self, prefix=None, rng=None):\n        first = self.bond_descriptors[0]\n        bump(first)\n        return prefix\n\n"
         "    def generate_string(self, extension):\n        local = copy.deepcopy(self.bond_descriptors)\n        local[0].weight = 1.0\n        self._memo = 1\n        return ''\n\n"
-        "    @property\n    def residues(self):\n        if getattr(self, '_pending', None) is None:\n            self._pending = [1, 2, 3]\n        self._pending.pop()\n        return []\n\n"
+        "    @property\n    def residues(self):\n        if getattr(self, '_pending', None) is None:\n            self._pending = [1, 2, 3]\n        return [self._pending.pop()]\n\n"
         "    @property\n    def generable(self):\n        self._generable_memo = len(self._raw_text) > 0\n        return self._generable_memo\n"
     ),
 }
@@ -224,7 +224,14 @@ def history_state(eng, res, E, rule="R-NO-HISTORY-STATE", collect=None, selfchec
             last = tail[-1] if tail else ""
             sites = E.sites.get((fi.qualname, (root, path)), [])
             why = E.why.get((fi.qualname, (root, path)), "")
-            fill = (depth == 0 and last not in ("<pop>", "<remove>", "<clear>", "<sort>", "<reverse>", "<popitem>", "<discard>")) or (depth == 1 and tail[0] == "[]")
+            # emptying a table / dropping an entry is eviction (harmless); taking something out *and using it* consumes remembered content
+            consuming = False
+            if depth == 0 and last in ("<pop>", "<popitem>", "<remove>", "<discard>"):
+                for sfi, st in sites:
+                    pst = parent(st) if isinstance(st, ast.Call) else None
+                    if isinstance(st, ast.Call) and not isinstance(pst, ast.Expr):
+                        consuming = True
+            fill = (depth == 0 and not consuming and last not in ("<sort>", "<reverse>")) or (depth == 1 and tail[0] == "[]")
             if last == "<inplace>":
                 res.info(f"{fi.qualname}: numeric in-place update below {what} [{why[:100]}] — harmless only if idempotent (not decided)")
                 continue
@@ -395,6 +402,99 @@ def shared_mutable(eng, res, rule="R-NO-SHARED-MUTABLE"):
                        f"{f0.module.relpath}:{n0.lineno}", rebound,
                        f"`{attr}` is bound once in the class body of {ci.name} and mutated through self in {f0.qualname}: every instance (and every generation) shares it")
     return n
+
+
+IMMUTABLE_CTORS = {"tuple", "frozenset", "str", "int", "float", "bool", "bytes", "compile", "namedtuple", "object", "property", "staticmethod", "classmethod"}
+
+
+def shared_class_object(eng, res, rule="R-NO-SHARED-MUTABLE", only_classes=None):
+    """An object bound at class level (in the class body, or lazily through `Class.name = ...`) is one object for all
+    instances.  Handing it to instances (`self.x = Class.name` / `self.name`) is fine as long as it is only read;
+    re-configuring it through an instance (attribute store, element store, mutating method) changes every other instance."""
+    from ..effects import MUT_METHODS
+
+    n = 0
+    for ci in eng.prog.classes.values():
+        if only_classes is not None and not any(eng.prog.is_subclass(ci, b) for b in only_classes):
+            continue
+        shared = {}
+        for st in ci.node.body:
+            if isinstance(st, ast.Assign) and len(st.targets) == 1 and isinstance(st.targets[0], ast.Name):
+                v = st.value
+                if isinstance(v, ast.Call) and callee_name(v) not in IMMUTABLE_CTORS:
+                    shared[st.targets[0].id] = st
+                elif isinstance(v, ast.Constant) and v.value is None:
+                    shared.setdefault(st.targets[0].id, None)  # candidate: lazily bound below
+        family = [c for c in eng.prog.classes.values() if eng.prog.is_subclass(c, ci.name) or eng.prog.is_subclass(ci, c.name)]
+        methods = [sub for c in family for fs in c.methods.values() for f in fs for sub in with_nested(f)]
+        # lazily bound class attributes: `Class.name = <call>` anywhere in the family
+        for f in methods:
+            for node in own_nodes(f.node):
+                if isinstance(node, ast.Assign):
+                    for t in node.targets:
+                        if isinstance(t, ast.Attribute) and isinstance(t.value, ast.Name) and t.value.id == ci.name and isinstance(node.value, ast.Call) and callee_name(node.value) not in IMMUTABLE_CTORS:
+                            shared[t.attr] = node
+        shared = {k: v for k, v in shared.items() if v is not None}
+        if not shared:
+            continue
+
+        def denotes_shared(e):
+            """expression is `self.Y` / `Class.Y` / `type(self).Y` / `cls.Y` for a shared Y"""
+            if isinstance(e, ast.Attribute) and e.attr in shared:
+                b = e.value
+                if isinstance(b, ast.Name) and b.id in ("self", "cls", ci.name):
+                    return e.attr
+                if isinstance(b, ast.Call) and callee_name(b) == "type":
+                    return e.attr
+                if isinstance(b, ast.Attribute) and b.attr == "__class__":
+                    return e.attr
+            return None
+
+        alias = {y: y for y in shared}  # instance attribute -> shared name
+        for f in methods:
+            fl = eng.flow(f)
+            for node in own_nodes(f.node):
+                if isinstance(node, ast.Assign) and fl.cfg.has(node):
+                    for t in node.targets:
+                        if isinstance(t, ast.Attribute) and isinstance(t.value, ast.Name) and t.value.id == "self":
+                            try:
+                                v = fl.expand(node.value, fl.cfg.node_of(node), depth=4)
+                            except AnalysisError:
+                                v = node.value
+                            for x in ast.walk(v):
+                                y = denotes_shared(x)
+                                if y and (x is v or (is_phi(v) and x in getattr(v, "args", []))):
+                                    alias[t.attr] = y
+        muts = []
+        for f in methods:
+            for node in own_nodes(f.node):
+                tgt = None
+                if isinstance(node, (ast.Assign, ast.AugAssign)):
+                    for t in (node.targets if isinstance(node, ast.Assign) else [node.target]):
+                        base = t.value if isinstance(t, (ast.Attribute, ast.Subscript)) else None
+                        if base is not None and isinstance(base, ast.Attribute) and base.attr in alias and isinstance(base.value, (ast.Name, ast.Call, ast.Attribute)):
+                            if isinstance(base.value, ast.Name) and base.value.id not in ("self", "cls", ci.name):
+                                continue
+                            tgt = (base.attr, f"{src(t)} = …")
+                elif isinstance(node, ast.Call) and isinstance(node.func, ast.Attribute) and node.func.attr in MUT_METHODS:
+                    base = node.func.value
+                    if isinstance(base, ast.Attribute) and base.attr in alias and isinstance(base.value, ast.Name) and base.value.id in ("self", "cls", ci.name):
+                        tgt = (base.attr, f"{src(node.func)}(…)")
+                if tgt:
+                    muts.append((f, node, tgt))
+        for y, st in sorted(shared.items()):
+            n += 1
+            mine = [(f, node, t) for f, node, t in muts if alias.get(t[0]) == y]
+            res.ob(rule, ci.qualname, f"{ci.name}.{y}:shared-object", f"the object bound once for all `{ci.name}` instances as `{y}` is never re-configured through an instance",
+                   f"{ci.module.relpath}:{st.lineno}", not mine,
+                   "; ".join(f"{f.qualname} line {node.lineno}: {t[1]} (reaches the one object every instance holds)" for f, node, t in mine[:3]))
+    return n
+
+
+def is_phi(t):
+    from ..dataflow import is_mark
+
+    return is_mark(t, "phi")
 
 
 def rng_in_scope(eng, fi: FuncInfo):
@@ -641,6 +741,11 @@ def check(eng, res):
     n4 = copy_owned(eng, res)
     res.floor("R-COPY-OWNED", n4, 2)
     shared_mutable(eng, res)
+    shared_class_object(eng, res)
+    from ..memo import memo_rules, positive_example_fires as _memo_pos
+
+    memo_rules(eng, res)
+    res.ob("R-MEMO", "selfcheck", "positive-example", "built-in positive example (a memoised value over re-assigned state, a memoised factory of changing objects) is flagged, its harmless twin is not", "-", _memo_pos(), "the memo analysis no longer detects the built-in example")
     accessor_copy(eng, res)
     # information: module-level mutable state written from functions
     for fi in eng.prog.all_functions():
